@@ -7,8 +7,8 @@ def plan(tier, seed):
     units = []
     bi = seed
     if tier == 'quick':
-        shapes = [(0, 1), (1, 0), (1, 1), (0, 2), (2, 1), (1, 2), (2, 2)]
-        lens, cap, tails, ctxs, nlens = [0, 1, 2], 3, ['', ' t'], range(8), [1]
+        shapes = [(0, 1), (1, 0), (1, 1), (0, 2), (2, 1), (1, 2)]
+        lens, cap, tails, ctxs, nlens = [0, 1, 2], 3, ['', ' t'], range(7), [1]
     else:
         shapes = [(0, 1), (1, 0), (1, 1), (0, 2), (2, 1), (1, 2), (2, 2), (3, 1), (0, 3), (1, 3), (0, 4), (3, 2)]
         lens, cap, tails, ctxs, nlens = [0, 1, 2, 3], 4, ['', ' t', '{u}'], range(8), [1, 2]
